@@ -5,15 +5,16 @@
 cd /verif
 IDS="$@"; [ -z "$IDS" ] && IDS=$(ls seeded | grep '^C')
 OUT=${MATRIX_OUT:-/verif/seeded/MATRIX.tsv}
+R=${MATRIX_REPO:-/repo}   # a scratch worktree of /repo may be given instead (then VERIF_REPO points the check at it)
 [ -z "$1" ] && : > $OUT
 for id in $IDS; do
   prop=${id%-*}
   if grep -q '"obsolete"' /verif/seeded/$id/meta.json 2>/dev/null; then echo -e "$id\t$prop quick\tobsolete\t(no longer property-breaking on the repaired tree, see meta.json)" >> $OUT; continue; fi
-  [ -n "$(git -C /repo status --porcelain)" ] && { echo "/repo not clean"; exit 2; }
-  git -C /repo apply /verif/seeded/$id/patch.diff || { echo -e "$id\t$prop\tpatch-does-not-apply" >> $OUT; continue; }
-  out=$(./check $prop quick 2>&1); rc=$?
+  [ -n "$(git -C $R status --porcelain)" ] && { echo "$R not clean"; exit 2; }
+  git -C $R apply /verif/seeded/$id/patch.diff || { echo -e "$id\t$prop\tpatch-does-not-apply" >> $OUT; continue; }
+  out=$(VERIF_REPO=$R ./check $prop quick 2>&1); rc=$?
   keys=$(echo "$out" | grep '^  key=' | sed 's/^  key=//' | sort -u | tr '\n' '|')
-  git -C /repo checkout -- .
+  git -C $R checkout -- .
   echo -e "$id\t$prop quick\texit=$rc\t$keys" >> $OUT
 done
 cat $OUT
